@@ -1,11 +1,182 @@
-// Byzantine member of the `proto` engine (menu of correctly self-signed misbehaviour).
+// Byzantine member of the `proto` engine: a menu of misbehaviour that is correctly signed by the
+// Byzantine authority's own key and built only from what is on the wire (honest signatures are
+// never forged: certificates are assembled from the honest votes/timeouts present in the pool).
+use super::node::variant_payload;
 use super::universe::MsgId;
-use super::{GState, Search};
+use super::{GState, Search, POOLW};
+use crate::world::is_genesis_qc;
+use consensus::verif::{ConsensusMessage, Round, Timeout, Vote};
+use consensus::{Block, QC, TC};
+use crypto::{Digest, Hash as _, PublicKey, Signature};
+use std::collections::{BTreeMap, HashMap};
+use std::sync::{Arc, Mutex, OnceLock};
 
 pub fn free_messages(_s: &Search, _g: &GState) -> Vec<MsgId> {
     Vec::new()
 }
 
-pub fn menu(_s: &Search, _g: &GState) -> Vec<MsgId> {
-    Vec::new()
+type Cache = Mutex<HashMap<(u64, [u64; POOLW]), Arc<Vec<MsgId>>>>;
+static CACHE: OnceLock<Cache> = OnceLock::new();
+
+pub fn menu(s: &Search, g: &GState) -> Arc<Vec<MsgId>> {
+    let cache = CACHE.get_or_init(|| Mutex::new(HashMap::new()));
+    let key = (s.id(), g.pool);
+    if let Some(m) = cache.lock().unwrap().get(&key) {
+        return m.clone();
+    }
+    let m = Arc::new(compute(s, g));
+    let mut c = cache.lock().unwrap();
+    if c.len() > 2_000_000 {
+        c.clear();
+    }
+    c.insert(key, m.clone());
+    m
+}
+
+fn compute(s: &Search, g: &GState) -> Vec<MsgId> {
+    let w = &s.world;
+    let b = s.cfg.byz.unwrap();
+    let bname = w.name(b);
+    let q = w.ref_quorum();
+    let maxr = s.cfg.max_round;
+    let msgs: Vec<_> = g.pool_items().iter().map(|p| s.uni.msg(s.pitem(*p).0)).collect();
+
+    // what is on the wire
+    let mut blocks: BTreeMap<Digest, Block> = BTreeMap::new();
+    let mut qcs: BTreeMap<(Round, Digest), QC> = BTreeMap::new();
+    let mut tcs: BTreeMap<(Round, Vec<(PublicKey, Round)>), TC> = BTreeMap::new();
+    let mut votes: BTreeMap<(Round, Digest), BTreeMap<PublicKey, Signature>> = BTreeMap::new();
+    let mut timeouts: BTreeMap<Round, BTreeMap<PublicKey, (Signature, Round)>> = BTreeMap::new();
+    let mut add_qc = |qc: &QC, qcs: &mut BTreeMap<(Round, Digest), QC>| {
+        if !is_genesis_qc(qc) {
+            qcs.entry((qc.round, qc.hash.clone())).or_insert_with(|| qc.clone());
+        }
+    };
+    let tc_key = |tc: &TC| {
+        let mut v: Vec<(PublicKey, Round)> = tc.votes.iter().map(|(k, _, h)| (*k, *h)).collect();
+        v.sort();
+        (tc.round, v)
+    };
+    for m in &msgs {
+        match &m.msg {
+            ConsensusMessage::Propose(blk) => {
+                blocks.insert(blk.digest(), blk.clone());
+                add_qc(&blk.qc, &mut qcs);
+                if let Some(tc) = &blk.tc {
+                    tcs.entry(tc_key(tc)).or_insert_with(|| tc.clone());
+                }
+            }
+            ConsensusMessage::Vote(v) => {
+                votes.entry((v.round, v.hash.clone())).or_default().insert(v.author, v.signature.clone());
+            }
+            ConsensusMessage::Timeout(t) => {
+                add_qc(&t.high_qc, &mut qcs);
+                timeouts.entry(t.round).or_default().insert(t.author, (t.signature.clone(), t.high_qc.round));
+            }
+            ConsensusMessage::TC(tc) => {
+                tcs.entry(tc_key(tc)).or_insert_with(|| tc.clone());
+            }
+            ConsensusMessage::SyncRequest(..) => {}
+        }
+    }
+    // certificates formable from honest votes on the wire plus the Byzantine signature
+    for ((round, hash), vs) in &votes {
+        if qcs.contains_key(&(*round, hash.clone())) {
+            continue;
+        }
+        let mut vs = vs.clone();
+        if !vs.contains_key(&bname) {
+            let v = w.vote_for(b, hash.clone(), *round);
+            vs.insert(bname, v.signature);
+        }
+        let stake: u64 = vs.keys().filter_map(|k| w.index_of(k)).map(|i| w.stakes[i] as u64).sum();
+        if stake >= q {
+            qcs.insert((*round, hash.clone()), QC { hash: hash.clone(), round: *round, votes: vs.into_iter().collect() });
+        }
+    }
+    let qc_rounds: Vec<Round> = {
+        let mut v: Vec<Round> = qcs.keys().map(|k| k.0).collect();
+        v.push(0);
+        v.sort();
+        v.dedup();
+        v
+    };
+    for (round, ts) in &timeouts {
+        // own entry may claim any known QC round; prefer the lowest (most dangerous) and the highest
+        let mut claims = vec![0u64];
+        if let Some(h) = qc_rounds.iter().filter(|r| **r < *round).max() {
+            if *h != 0 {
+                claims.push(*h);
+            }
+        }
+        for claim in claims {
+            let mut ts = ts.clone();
+            if !ts.contains_key(&bname) {
+                let t = w.timeout(b, *round, QC { hash: Digest::default(), round: claim, votes: vec![] });
+                ts.insert(bname, (t.signature, claim));
+            }
+            let stake: u64 = ts.keys().filter_map(|k| w.index_of(k)).map(|i| w.stakes[i] as u64).sum();
+            if stake >= q {
+                let tc = TC { round: *round, votes: ts.into_iter().map(|(k, (s, h))| (k, s, h)).collect() };
+                tcs.entry(tc_key(&tc)).or_insert(tc);
+            }
+        }
+    }
+
+    let mut out: Vec<MsgId> = Vec::new();
+    let mut all_qcs: Vec<QC> = vec![QC::genesis()];
+    all_qcs.extend(qcs.values().cloned());
+    // proposals
+    for r in 1..=maxr {
+        let leads = w.ref_leader(r) == b;
+        let cands: Vec<&QC> = all_qcs.iter().filter(|qc| qc.round < r).collect();
+        if leads {
+            for qc in &cands {
+                let mut tc_opts: Vec<Option<TC>> = vec![None];
+                for ((tr, _), tc) in &tcs {
+                    if *tr + 1 == r {
+                        tc_opts.push(Some(tc.clone()));
+                    }
+                }
+                for tc in tc_opts {
+                    for variant in 0..2 {
+                        let payload = if variant == 0 { vec![] } else { vec![variant_payload()] };
+                        let blk = w.block(b, r, (*qc).clone(), tc.clone(), payload);
+                        out.push(s.uni.intern(ConsensusMessage::Propose(blk)));
+                    }
+                }
+            }
+        } else if let Some(qc) = cands.iter().max_by_key(|qc| qc.round) {
+            // probe: proposal for a round the Byzantine member does not lead
+            let blk = w.block(b, r, (*qc).clone(), None, vec![]);
+            out.push(s.uni.intern(ConsensusMessage::Propose(blk)));
+        }
+    }
+    // votes for every block on the wire
+    for blk in blocks.values() {
+        if blk.round <= maxr {
+            let v: Vote = w.vote(b, blk);
+            out.push(s.uni.intern(ConsensusMessage::Vote(v)));
+        }
+    }
+    // timeouts with the lowest and the highest known QC
+    for r in 1..=maxr {
+        let mut hq: Vec<QC> = vec![QC::genesis()];
+        if let Some(best) = qcs.values().filter(|qc| qc.round < r).max_by_key(|qc| qc.round) {
+            hq.push(best.clone());
+        }
+        for qc in hq {
+            let t: Timeout = w.timeout(b, r, qc);
+            out.push(s.uni.intern(ConsensusMessage::Timeout(t)));
+        }
+    }
+    // certificates it can form, sent as such
+    for tc in tcs.values() {
+        if tc.round <= maxr {
+            out.push(s.uni.intern(ConsensusMessage::TC(tc.clone())));
+        }
+    }
+    out.sort();
+    out.dedup();
+    out
 }
